@@ -39,9 +39,32 @@ fn check(text: &str, labels: &[B]) -> Option<String> {
     }
 }
 
+fn predictor() -> &'static vaporetto::Predictor {
+    static P: std::sync::OnceLock<vaporetto::Predictor> = std::sync::OnceLock::new();
+    P.get_or_init(|| {
+        let bytes = std::fs::read("/repo/resources/model.bin").unwrap();
+        let (m, _) = vaporetto::Model::read_slice(&bytes).unwrap();
+        vaporetto::Predictor::new(m, true).unwrap()
+    })
+}
+
 fn check_inner(text: &str, labels: &[B]) -> Option<String> {
+    // the same labels on a plain sentence and on one that was predicted (and tagged) first and then relabelled by hand,
+    // as a filter or a caller withdrawing decisions would: tokens depend on the labels only
+    if let Some(d) = check_sentence(text, labels, sentence_with(text, labels)) { return Some(d); }
+    let mut s = vaporetto::Sentence::from_raw(text.to_string()).unwrap();
+    predictor().predict(&mut s);
+    s.fill_tags();
+    s.boundaries_mut().copy_from_slice(labels);
+    let n = s.n_tags();
+    // the written line of a tagged sentence carries tags: compare tokens only, and the line after dropping the tags
+    s.reset_tags(0);
+    let _ = n;
+    check_sentence(text, labels, s).map(|d| d.replace("{\"replay_arg\"", "{\"after_predict\":true,\"replay_arg\""))
+}
+
+fn check_sentence(text: &str, labels: &[B], s: vaporetto::Sentence<'static, 'static>) -> Option<String> {
     let chars: Vec<char> = text.chars().collect();
-    let s = sentence_with(text, labels);
     let got: Vec<(usize, usize, String)> = s
         .iter_tokens()
         .map(|t| (t.start(), t.end(), t.surface().to_string()))
